@@ -5,6 +5,7 @@ import itertools
 from core import fseq, fseqs, fbool, fcells, pseq, pseqs, pcells, guarded
 import meshlib as ml
 import used
+import past
 
 PROP = "C03"
 RULE = ("exhaustive: every mesh pattern of length <=2 with EVERY subset of its (k+1)^2 cells and every "
@@ -13,7 +14,11 @@ RULE = ("exhaustive: every mesh pattern of length <=2 with EVERY subset of its (
         "inflating unshaded cells (planted occurrence) with near misses (a point in a shaded cell); mixed "
         "classical/mesh argument lists; histories on one MeshPatt object; non-trivial = pattern length >=1, not "
         "longer than the permutation, permutation length >=2 and at least one shaded cell / adjacency requirement; "
-        "distinct = distinct op lines")
+        "distinct = distinct op lines; large: every operation again on targets of length 9-12, 21-40, 64-70 and a few "
+        "around 200 / 401 / 1000 and on patterns of length up to 70 (planted copies at the ends, nearly monotone targets "
+        "with few classical occurrences, lists mixing short and long items); objects with a past: on the heavy lines the "
+        "patterns and targets are fresh / used / derived from a used object through another API route (past.mkperm2 / "
+        "mkmesh2), a selection of lines is preceded by the neighbouring calls (used.prelude)")
 ASSUMPTIONS = [
     "model/implementation agreement outside the enumerated and sampled inputs is assumed",
     "theorems assume IsPerm of pattern and permutation; non-permutation tuples are only correspondence-checked",
@@ -35,6 +40,13 @@ def worker_init():
 # the whole line is evaluated a second time on the SAME objects and both answers must agree, and every
 # occurrence listing is computed while another listing of the same call is only partially consumed.
 _HEAVY = [False]
+_DERIVE = [False]     # objects of the line come from past.mkperm2 / mkmesh2 (fresh / used / derived from a used object)
+_BIG = 9              # targets at least this long belong to the 'large' stream
+
+
+def _longest(a):
+    """length of the longest sequence among the arguments (cell lists do not count)"""
+    return max([t.count(",") + 1 for t in " ".join(a).replace(";", " ").replace("/", " ").replace(":", " ").split(" ") if "." not in t] or [0])
 
 
 def _heavy(op, a):
@@ -47,6 +59,8 @@ def _heavy(op, a):
 
 
 def _warm_target(s):
+    if _DERIVE[0]:
+        return
     if _HEAVY[0]:
         used.warm_perm(s, 1)
     else:
@@ -54,15 +68,25 @@ def _warm_target(s):
 
 
 def _warm_mesh(m):
+    if _DERIVE[0]:
+        return
     if _HEAVY[0]:
         used.warm_mesh(m, 1)
     else:
         used.quiet(hash, m)
 
 
+def _mkP(seq, salt=0):
+    return past.mkperm2(seq, salt) if _DERIVE[0] else Perm(seq)
+
+
 def _P(seq):
     seq = tuple(seq)
-    return used.obj(("P", seq), lambda: Perm(seq), _warm_target)
+    return used.obj(("P", seq), lambda: _mkP(seq, 1), _warm_target)
+
+
+def _mkM(p, cells):
+    return past.mkmesh2(p, cells, 2) if _DERIVE[0] else MeshPatt(Perm(p), cells)
 
 
 def _item(t):
@@ -74,13 +98,13 @@ def _item(t):
     if kind == "c":
         return _P(pseq(parts[0]))
     if kind == "m":
-        return used.obj(("m", t), lambda: MeshPatt(Perm(pseq(parts[0])), pcells(parts[1])), _warm_mesh)
+        return used.obj(("m", t), lambda: _mkM(pseq(parts[0]), pcells(parts[1])), _warm_mesh)
     if kind == "b":
-        return used.obj(("b", t), lambda: BivincularPatt(Perm(pseq(parts[0])), pseq(parts[1]), pseq(parts[2])), _warm_mesh)
+        return used.obj(("b", t), lambda: BivincularPatt(_mkP(pseq(parts[0]), 3), pseq(parts[1]), pseq(parts[2])), _warm_mesh)
     if kind == "v":
-        return used.obj(("v", t), lambda: VincularPatt(Perm(pseq(parts[0])), pseq(parts[1])), _warm_mesh)
+        return used.obj(("v", t), lambda: VincularPatt(_mkP(pseq(parts[0]), 3), pseq(parts[1])), _warm_mesh)
     if kind == "k":
-        return used.obj(("k", t), lambda: CovincularPatt(Perm(pseq(parts[0])), pseq(parts[1])), _warm_mesh)
+        return used.obj(("k", t), lambda: CovincularPatt(_mkP(pseq(parts[0]), 3), pseq(parts[1])), _warm_mesh)
     raise ValueError(t)
 
 
@@ -89,12 +113,13 @@ def _items(s):
 
 
 def _mesh(a):
-    return used.obj(("M", a[0], a[1]), lambda: MeshPatt(Perm(pseq(a[0])), pcells(a[1])), _warm_mesh)
+    return used.obj(("M", a[0], a[1]), lambda: _mkM(pseq(a[0]), pcells(a[1])), _warm_mesh)
 
 
 def _biv(kind, *parts):
     cls = {"B": BivincularPatt, "V": VincularPatt, "C": CovincularPatt}[kind]
-    return used.obj((kind,) + parts, lambda: cls(Perm(pseq(parts[0])), *[pseq(x) for x in parts[1:]]), _warm_mesh)
+    # (the underlying Perm of a bivincular pattern is an object with a past on the selected lines)
+    return used.obj((kind,) + parts, lambda: cls(_mkP(pseq(parts[0]), 3), *[pseq(x) for x in parts[1:]]), _warm_mesh)
 
 
 def _occ(make):
@@ -107,13 +132,44 @@ def _occ(make):
 
 
 def impl(op, a):
+    n = _longest(a)
+    big, huge = n >= _BIG, n >= 45
+    # heavy = second evaluation on the same objects + interleaved listings; the lines of the 'large' stream are
+    # heavy up to length 45 (beyond that the four-fold work is too slow)
+    _HEAVY[0] = not huge and (big or _heavy(op, a))
+    # a third of the heavy lines (and the whole 'large' stream) run on objects with a past; an eighth of the heavy
+    # lines are preceded by the neighbouring calls (objects created, queried and dropped)
+    _DERIVE[0] = big or (_HEAVY[0] and used.digest("d~" + op, a) % 3 == 0)
+    if _HEAVY[0] and not big:
+        used.prelude(op, a, _plain, 8)
     used.begin()
-    _HEAVY[0] = _heavy(op, a)
     r1 = _impl(op, a)
     if not _HEAVY[0]:
         return r1
     used.T.rewind()
     r2 = _impl(op, a)
+    return r1 if r1 == r2 else used.unstable(r1, r2)
+
+
+def _plain(op, a):
+    """a neighbouring call: evaluated once, on fresh objects, without the used-object treatment"""
+    saved = (_HEAVY[0], _DERIVE[0])
+    _HEAVY[0] = _DERIVE[0] = False
+    try:
+        return _impl(op, a)
+    finally:
+        _HEAVY[0], _DERIVE[0] = saved
+
+
+def _avoids_set(s, items):
+    """avoids_set receives a list on the heavy lines; afterwards the list is emptied and the call is repeated
+    with a new list of the same items (must not be answered from state tied to the first list)"""
+    if not _HEAVY[0]:
+        return fbool(s.avoids_set(iter(items)))
+    lst = list(items)
+    r1 = fbool(s.avoids_set(lst))
+    del lst[:]
+    r2 = fbool(s.avoids_set(list(items)))
     return r1 if r1 == r2 else used.unstable(r1, r2)
 
 
@@ -145,7 +201,7 @@ def _impl(op, a):
     if op == "mavoids":
         return guarded(lambda: fbool(_P(pseq(a[0])).avoids(*_items(a[1]))))
     if op == "mavoidsset":
-        return guarded(lambda: fbool(_P(pseq(a[0])).avoids_set(iter(_items(a[1])))))
+        return guarded(lambda: _avoids_set(_P(pseq(a[0])), _items(a[1])))
     if op == "mhist":
         def f():
             m = _mesh(a)          # one object: its underlying Perm memoises the search table
@@ -166,21 +222,23 @@ def _item_contained(t, s):
     parts = r.split("/")
     p = pseq(parts[0])
     if kind == "c":
-        return bool(ml.classical_occs(p, s))
+        return bool(ml.classical_occs_any(p, s))
     if kind == "m":
-        return bool(ml.mesh_occs(p, pcells(parts[1]), s))
+        return bool(ml.mesh_occs_any(p, pcells(parts[1]), s))
     if kind == "b":
-        return bool(ml.adjacency_occs(p, pseq(parts[1]), pseq(parts[2]), s))
+        return bool(ml.adjacency_occs_any(p, pseq(parts[1]), pseq(parts[2]), s))
     if kind == "v":
-        return bool(ml.adjacency_occs(p, pseq(parts[1]), (), s))
+        return bool(ml.adjacency_occs_any(p, pseq(parts[1]), (), s))
     if kind == "k":
-        return bool(ml.adjacency_occs(p, (), pseq(parts[1]), s))
+        return bool(ml.adjacency_occs_any(p, (), pseq(parts[1]), s))
     raise ValueError(t)
 
 
 def oracle(op, a):
     """independent brute force from the property text; None where the text does not decide
-    (malformed input, error kinds)"""
+    (malformed input, error kinds).  For targets longer than 14 the listing is produced by extending index
+    tuples position by position and testing every shaded cell's rectangle for emptiness (meshlib.*_big): still
+    the definition, but without running through all index subsets"""
     if op in ("mocc", "moccof", "moccspec", "mcount", "min", "mcontainedin", "mavoidedby", "mhist"):
         p, cells = pseq(a[0]), pcells(a[1])
         if not ml.is_perm(p) or any(not (0 <= x <= len(p) and 0 <= y <= len(p)) for x, y in cells):
@@ -189,23 +247,23 @@ def oracle(op, a):
         if not all(ml.is_perm(s) for s in targets):
             return None
         if op in ("mocc", "moccof", "moccspec"):
-            return fseqs(ml.mesh_occs(p, cells, targets[0]))
+            return fseqs(ml.mesh_occs_any(p, cells, targets[0]))
         if op == "mcount":
-            return str(len(ml.mesh_occs(p, cells, targets[0])))
+            return str(len(ml.mesh_occs_any(p, cells, targets[0])))
         if op == "min":
-            return fbool(bool(ml.mesh_occs(p, cells, targets[0])))
+            return fbool(bool(ml.mesh_occs_any(p, cells, targets[0])))
         if op == "mcontainedin":
-            return fbool(all(ml.mesh_occs(p, cells, s) for s in targets))
+            return fbool(all(ml.mesh_occs_any(p, cells, s) for s in targets))
         if op == "mavoidedby":
-            return fbool(all(not ml.mesh_occs(p, cells, s) for s in targets))
-        return "|".join(fseqs(ml.mesh_occs(p, cells, s)) for s in targets)
+            return fbool(all(not ml.mesh_occs_any(p, cells, s) for s in targets))
+        return "|".join(fseqs(ml.mesh_occs_any(p, cells, s)) for s in targets)
     if op in ("bocc", "vocc", "cocc"):
         p, s = pseq(a[0]), pseq(a[-1])
         I = pseq(a[1]) if op in ("bocc", "vocc") else ()
         V = pseq(a[2]) if op == "bocc" else (pseq(a[1]) if op == "cocc" else ())
         if not _wellformed(p, s) or any(not 0 <= j <= len(p) for j in tuple(I) + tuple(V)):
             return None
-        return fseqs(ml.adjacency_occs(p, I, V, s))
+        return fseqs(ml.adjacency_occs_any(p, I, V, s))
     if op == "bshade":
         p, I, V = pseq(a[0]), pseq(a[1]), pseq(a[2])
         k = len(p)
@@ -266,6 +324,104 @@ def _rand_item(rng, s):
     if kind == "v":
         return "v:%s/%s" % (fseq(p), fseq(I))
     return "k:%s/%s" % (fseq(p), fseq(V))
+
+
+def _sub_item(rng, s, drop):
+    """a long classical / mesh item for a mixed list: the pattern of s with `drop` entries removed (so it is
+    contained in s), half of the time spoiled by exchanging two adjacent values"""
+    n = len(s)
+    keep = sorted(rng.sample(range(n), n - drop)) if n >= drop else list(range(n))
+    q = list(ml.standardize([s[i] for i in keep]))
+    if rng.random() < 0.5 and len(q) >= 2:
+        v = rng.randrange(len(q) - 1)
+        i, j = q.index(v), q.index(v + 1)
+        q[i], q[j] = q[j], q[i]
+    if rng.random() < 0.5:
+        return "c:" + fseq(q)
+    return "m:%s/%s" % (fseq(q), fcells(ml.sparse_shading(rng, len(q), rng.randrange(0, 3))))
+
+
+def large_lines(rng, quick):
+    """the 'large' stream: the same operations at sizes the other streams never reach (targets of length 9-12,
+    21-40, 64-70 and a few around 200 / 401 / 1000; patterns of length up to 70 in targets a few points longer).
+    An operation is left out of a scale where one of the three sides (implementation, oracle, Lean driver) needs
+    more than about 0.2 s for a line (measured): dense targets only for |pattern| <= 3 up to length 40 and
+    <= 2 up to length 70; around 200 patterns of length 2 only in targets with few classical occurrences; around
+    401 and 1000 patterns of length <= 1."""
+    lines = []
+    mul = 1 if quick else 6
+    # scale, number of cases, longest pattern with dense targets, longest pattern with sparse targets
+    plan = [("S", 300, 4, 4), ("M", 170, 3, 3), ("L", 60, 2, 3), ("X", 14, 1, 2), ("Y", 8, 1, 1), ("Z", 8, 1, 1)]
+    for scale, count, kdense, ksparse in plan:
+        for _ in range(count * mul):
+            n = ml.big_len(rng, scale)
+            dense = rng.random() < 0.5
+            k = rng.randint(1, kdense if dense else ksparse)
+            if rng.random() < 0.03:
+                k = 0
+            p = ml.rand_perm(rng, k)
+            sh = ml.rand_shading(rng, k)
+            s = ml.big_target(rng, p, sh, n, dense)
+            small = scale in "SML"
+            r = rng.random()
+            if scale == "Z":
+                # around 1000 the point-by-point scan of the code is quadratic for candidates that survive long:
+                # random targets with an extreme value forced to an end, at least two of the four cells shaded
+                s = list(ml.rand_perm(rng, n))
+                i, v = rng.choice([(0, 0), (0, n - 1), (n - 1, 0), (n - 1, n - 1)])
+                j = s.index(v)
+                s[i], s[j] = s[j], s[i]
+                sh = sorted(set(rng.sample(ml.all_cells(1), rng.randrange(2, 5)) + [(0, 1)]))
+                p, k, s, r = (0,), 1, tuple(s), 0.0
+            fp, fc, fs = fseq(p), fcells(sh), fseq(s)
+            if r < 0.4 or not small and r < 0.7:
+                lines.append("%s %s %s %s" % (rng.choice(["mocc", "mocc", "mocc", "moccof", "mcount", "min"]), fp, fc, fs))
+            elif r < 0.55:
+                I = sorted(j for j in range(k + 1) if rng.random() < 0.3)
+                V = sorted(j for j in range(k + 1) if rng.random() < 0.3)
+                bsh = set((j, y) for j in I for y in range(k + 1)) | set((x, v) for v in V for x in range(k + 1))
+                s2 = ml.big_target(rng, p, bsh, n, dense)
+                kind = rng.choice(["bocc", "bocc", "vocc", "cocc"])
+                if kind == "bocc":
+                    lines.append("bocc %s %s %s %s" % (fp, fseq(I), fseq(V), fseq(s2)))
+                else:
+                    lines.append("%s %s %s %s" % (kind, fp, fseq(I if kind == "vocc" else V), fseq(s2)))
+            elif r < 0.7:
+                # a mixed list: short classical / mesh / bivincular items and long ones (a few points shorter than s)
+                items = [_rand_item(rng, s) for _ in range(rng.randrange(1, 3))]
+                items.append("m:%s/%s" % (fp, fc))
+                for _ in range(rng.randrange(0, 3)):
+                    items.append(_sub_item(rng, s, rng.randrange(0, 3)))
+                rng.shuffle(items)
+                lines.append("%s %s %s" % (rng.choice(["mcontains", "mavoids", "mavoidsset"]), fs, ";".join(items)))
+            elif r < 0.85:
+                # several targets, short and long ones mixed, several long ones together
+                ss = [s, ml.inflate(rng, p, sh, rng.randrange(0, 5), cheat=0.3), ml.big_target(rng, p, sh, ml.big_len(rng, scale), dense)]
+                if scale != "S":
+                    ss.append(ml.big_target(rng, p, sh, ml.big_len(rng, "S"), True))
+                rng.shuffle(ss)
+                lines.append("%s %s %s %s" % (rng.choice(["mcontainedin", "mavoidedby"]), fp, fc, fseqs(ss)))
+            else:
+                # one pattern object searched in a short target, a long one, a short one, a variant of the long one, ...
+                t1 = ml.inflate(rng, p, sh, rng.randrange(0, 5), cheat=0.3)
+                t2 = ml.perturbed(rng, s)
+                lines.append("mhist %s %s %s" % (fp, fc, fseqs([t1, s, t1, t2, ml.rand_perm(rng, 3), s])))
+    # long patterns in targets that are a few points longer; targets that differ only near the end
+    for scale, count in (("S", 120), ("M", 60), ("L", 16)):
+        for _ in range(count * mul):
+            k = ml.big_len(rng, scale)
+            p = ml.rand_perm(rng, k) if rng.random() < 0.7 else ml.sparse_target(rng, (1, 0), k, 2)
+            sh = ml.sparse_shading(rng, k)
+            s = ml.inflate(rng, p, sh, rng.randrange(0, 4), cheat=rng.choice([0.0, 0.3]))
+            if rng.random() < 0.3:
+                s = ml.perturbed(rng, s)
+            op = rng.choice(["mocc", "mocc", "moccof", "mcount", "min"])
+            lines.append("%s %s %s %s" % (op, fseq(p), fcells(sh), fseq(s)))
+            if rng.random() < 0.3:
+                I = sorted(set(rng.choice([0, k, rng.randrange(k + 1)]) for _ in range(2)))
+                V = sorted(set(rng.choice([0, k, rng.randrange(k + 1)]) for _ in range(rng.randrange(0, 2))))
+                lines.append("bocc %s %s %s %s" % (fseq(p), fseq(I), fseq(V), fseq(s)))
+    return lines
 
 
 def run(ctx):
@@ -381,6 +537,8 @@ def run(ctx):
             ss.append(ss[0])
             lines.append("mhist %s %s %s" % (fseq(p), fcells(sh), fseqs(ss)))
     ctx.compare("random-planted", lines)
+    # ---- large: sizes the other streams never reach
+    ctx.compare("large", large_lines(rng, quick))
     # ---- malformed: glue code (constructor asserts, non-pattern arguments, non-permutation tuples)
     ctx.compare("malformed", [
         "mocc 0,1 3.0 0,1", "mocc 0,1 0.3 0,1", "mocc _ 0.1 _", "mshade 0 2.2", "mshade 0,1 2.2,2.2",
